@@ -230,6 +230,11 @@ def parse_cbmc(txt, rc, res):
     res["fns"] = sorted(fns)
     res["covers"] = covers
     res["failures"] = fails
+    if "ran out of memory" in txt or "std::bad_alloc" in txt:
+        res["status"] = "oom"
+        res["detail"] = "CBMC's solver ran out of memory under the per-harness cap"
+        res["failures"] = [f for f in fails if f["cbmc"] == "FAILURE"]
+        return res
     if "VERIFICATION SUCCESSFUL" in txt and not fails:
         res["status"] = "pass"
     elif "VERIFICATION FAILED" in txt:
